@@ -57,6 +57,6 @@ def run_cache(ctx, prop):
         ctx.cov['drift'] = dict(counts=drift, examples=[e for mm in merged for e in (mm.get('drift_examples') or [])][:3])
         vlib.log('DRIFT %s: the real cache no longer follows the implementation layer of Cache.tla step by step: %s' % (prop, drift))
     ctx.assumptions += ['remote = in-memory filespace behind a fault-injecting decorator; a fault = the k-th mutating remote call (Remove, RemoveAll, MkdirAll, Writer) fails before taking effect',
-                        'operation set: write, writer, mkdir, remove, recursive remove, file copy (directory copies: fixed witnesses only); canonical paths (spellings are C03)',
+                        'operation set: write, writer, mkdir, remove, recursive remove, file copy, directory copy onto a destination whose existing nodes do not clash in kind with the copied ones; canonical paths (spellings are C03)',
                         'a file is never copied onto itself (finding D_SelfCopyDeadlock)']
     return merged
